@@ -59,7 +59,7 @@ var c02Alphabet = []Op{
 }
 
 var c02Late = []Op{
-	{K: "get", B: 0}, {K: "add", B: 2}, {K: "write", S: "late\n"}, {K: "incr", B: 0, N: 1}, {K: "setcur", B: 0, N: 7}, {K: "settotal", B: 0, N: 9, F: true},
+	{K: "get", B: 0}, {K: "add", B: 2}, {K: "write", S: "late\n"}, {K: "write", S: ""}, {K: "incr", B: 0, N: 1}, {K: "setcur", B: 0, N: 7}, {K: "settotal", B: 0, N: 9, F: true},
 	{K: "trigger", B: 0}, {K: "refill", B: 0, N: 1}, {K: "abort", B: 0}, {K: "prio", B: 0, N: 1}, {K: "traverse", B: 0}, {K: "ewma", B: 0, N: 1},
 	{K: "proxyr", B: 0}, {K: "proxyw", B: 0}, {K: "barwait", B: 0}, {K: "get", B: 0}, {K: "isrun", B: 0},
 }
@@ -216,7 +216,7 @@ func init() {
 	register(&Family{
 		Property: "C02",
 		Rule: "call histories of length 1..2 over the public Bar/Progress methods {Add, IncrBy, SetCurrent, SetTotal, EnableTriggerComplete, SetRefill, Abort(false/true), UpdateBarPriority, Progress.Write, getters, TraverseDecorators, ProxyReader, ProxyWriter, EwmaIncrInt64, DecoratorAverageAdjust} issued by one thread while a second thread issues the done event {ctx cancel, Shutdown, none} and main calls Wait, " +
-			"so the bounded schedule search puts the container-done event at every position of the history; refresh {auto, none, manual}; then 17 late calls by main. " +
+			"so the bounded schedule search puts the container-done event at every position of the history; refresh {auto, none, manual}; then 18 late calls by main (among them an empty Write). " +
 			"Oracle: no PANIC/DEADLOCK/LIVELOCK/STARVED verdict in any thread; every call returns; late Add = ErrDone, late Write = (0, ErrDone), late proxies = nil, late mutators leave the getters unchanged, bar not running.",
 		Items: func(tier string) []Item {
 			var items []Item
